@@ -93,7 +93,7 @@ func tryStartProc(id string, join []string, grace time.Duration) (*procNode, str
 	args := []string{"server",
 		"--cluster.node-id", id,
 		"--proxy.bind-addr", n.Proxy, "--upstream.bind-addr", n.Upstream, "--admin.bind-addr", n.Admin,
-		"--cluster.gossip.bind-addr", n.Gossip, "--cluster.gossip.interval", "15ms",
+		"--cluster.gossip.bind-addr", n.Gossip, "--cluster.gossip.interval", "40ms",
 		"--cluster.abort-if-join-fails=false", "--cluster.join-timeout", "5s",
 		"--grace-period", grace.String(), "--log.level", "error", "--proxy.access-log.disable",
 		// upstream connections are authenticated with (far from expiry) tokens
